@@ -491,6 +491,8 @@ def check_box_points(rar, decr, lon, lat, n):
 
 
 def main(ctx):
+    # every lattice part once more under FP traps + warnings-as-errors (clean on the unchanged tree, see DESIGN section 0)
+    ctx.envstrict_all = True
     from esutil import coords
     from esutil import random as erandom
 
